@@ -121,7 +121,7 @@ def one_history(ctx, index, rng: random.Random):
     steps = rng.randint(3, 10 if ctx.quick else 20)
     for _ in range(steps):
         op = rng.choice(["fill_int", "fill_float", "fill_n_int", "fill_n_float", "fill_n_none", "add", "sub", "iadd", "isub", "mul", "div",
-                         "normalize", "merge", "set_dtype", "set_dtype", "copy", "assign", "derive", "set_dtype_signed"])
+                         "normalize", "merge", "set_dtype", "set_dtype", "copy", "assign", "derive", "set_dtype_signed", "free_sub"])
         before_dtype = np.dtype(h.dtype)
         f0, e0 = shadow_of(h)
         rec.mon("C13.rules")
@@ -292,6 +292,24 @@ def one_history(ctx, index, rng: random.Random):
                             rec.fail(monitor="C13.rules", op=how, symptom="running sums wrapped around / differ from the exact sums", diff=["frequencies"], detail={"parent": str(before_dtype)})
                         if how == "projection" and before_dtype.kind in "iu" and float(gf.sum()) != float(f0.sum()):
                             rec.fail(monitor="C13.rules", op=how, symptom="marginal sums wrapped around / differ from the exact sums", diff=["frequencies"], detail={"parent": str(before_dtype)})
+                    continue
+                elif op == "free_sub":
+                    # subtraction between narrow content types while free arithmetics is on: numpy's promotion, as without the switch
+                    from physt.config import config as _cfg
+
+                    da_, db_ = rng.sample(["int16", "int32", "int64", "float16", "float32", "float64"], 2)
+                    a_, _ = make(da_, None, n=rng.randint(1, 6))
+                    b_, _ = make(db_, None, n=rng.randint(1, 6))
+                    with _cfg.enable_free_arithmetics():
+                        if rng.random() < 0.5:
+                            r_ = a_ - b_
+                        else:
+                            r_ = a_.copy()
+                            r_ -= b_
+                    want_ = np.promote_types(da_, db_)
+                    if np.dtype(r_.dtype) != want_ or snap.dtype_problems(r_):
+                        rec.fail(monitor="C13.rules", op=f"{da_} - {db_} (free arithmetics)", symptom="dtype of a difference is not numpy's type promotion of the operands", diff=["dtype"],
+                                 detail={"a": da_, "b": db_, "result": str(r_.dtype), "expected": str(want_)})
                     continue
                 elif op == "set_dtype_signed":
                     # negative contents (made under free arithmetics) and unsigned targets: "within that type's range" has a lower end as well
